@@ -55,7 +55,36 @@ add("C12", "exploration",
     "certificates for SVT / Procrustes); projections idempotent; firm non-expansiveness on ALL ordered pairs of lattice vectors (n<=3).",
     "Bounds as stated; tolerance 1e-12*scale^2 on objective values. Not demanded: a penalty for smoothness_prox beyond the one its banded system defines; normalize on zero input.")
 
-READY = ["C01", "C05", "C12", "C17", "C19"]
+add("C06", "model_checking",
+    "explicit exploration of the iteration chains s_1..s_K of the real algorithms (prefix runs + convergence-exit runs) over a complete configuration lattice, with a per-state monitor comparing every reported error with an independently recomputed one",
+    "For every (algorithm, option set, data family, shape, rank) of the lattice - 11 algorithms, 45 option sets - the chain of iterates is produced by the "
+    "real code (n_iter_max = 1..K, tolerance off, plus loose-tolerance runs so the convergence exit is taken); in every state the reported values must be finite, the last "
+    "one must equal the error of the returned decomposition recomputed by an independent einsum reconstruction, prefix lists must be bit-identical, and every "
+    "(decomposition, error) pair given to a callback must agree.",
+    "Bounds: order 2-4, dims<=4, rank<=3, K<=9 (13 thorough). Tolerance 1e-6 absolute on the relative error (shortcut formula) / 1e-9 (explicit residual). CMTF accepted with or "
+    "without the documented factor 1/2. Global NumPy RNG re-seeded before every run.", engine="HX")
+
+add("C09", "exploration",
+    "bounded exhaustive enumeration of (shape x input family x every rank vector x svd method [x start mode]) with singular-value tail bounds computed independently",
+    "Every shape {2,3}^n (n=2..4; thorough {2,3,4}^n and {2,3}^5) x 5 input families x EVERY rank vector from 1 to beyond the unfolding sizes for tucker (HOSVD only, 1 and "
+    "100 sweeps), tensor_train, tensor_train_matrix and tensor_ring (every start mode): exact at sufficient ranks, error <= root-sum-square of discarded tails, error >= largest "
+    "discarded tail at the requested ranks, returned ranks <= requested.",
+    "Trusted: numpy.linalg.svd on harness-built unfoldings for the tails; harness-side reconstructions. TR exactness demanded only under a proven sufficient condition; documented ValueErrors guarded (counted).")
+
+add("C16", "model_checking",
+    "BFS over all operation histories (seeded calls, generator-seeded calls, unseeded calls, global-RNG perturbations) up to a depth bound per seed-accepting entry point, state = (global RNG state hash, outputs seen per (entry, seed)), invariants checked in every state",
+    "62 seed-accepting entry-point configurations and 28 seedless functions; every history up to depth 3-5 is replayed on the real code; invariants: outputs of f(seed) bit-identical "
+    "within a history, identically seeded generators agree, an int-seeded call leaves numpy's global RNG state untouched, seedless functions repeat identically.",
+    "Bounds: depth 3 (quick) / 4 (thorough), +1/+2 for cheap entries; seeds {0,1,12345,2^32-1}. No tolerance (bit equality).", engine="HX")
+
+add("C20", "exploration",
+    "bounded exhaustive enumeration of factor sets x all column permutations x column scalings with a brute-force all-matchings oracle (R!); loop-level definitions for error metrics",
+    "Ranks 1-5 (6 thorough), 1-3 modes, every permutation in S_R x scalings {+-1,+-2,1/2}^R: returned congruence = maximum over all R! matchings and the returned permutation attains it, "
+    "=1 with the recovering permutation on equivalent sets, in [0,1] with absolute values; all four correlation_index methods in [0,1] and 0 on equivalent sets; cp_permute_factors aligns and "
+    "preserves the tensor; MSE/RMSE/R2/correlation/covariance equal fsum loop definitions for every axis argument; leverage scores >=0 and sum to 1.",
+    "Trusted: brute force over R! matchings, math.fsum. R2 accepted centred or uncentred, ddof 0 or 1 accepted.")
+
+READY = ["C01", "C05", "C06", "C09", "C12", "C16", "C17", "C19", "C20"]
 for _p in list(CHECKS):
     if _p not in READY:
         del CHECKS[_p]
